@@ -300,6 +300,11 @@ def handle (cfg : Cfg) (st : St) (line : String) : St × String :=
       | none => (st, "bad-op parsed")
       | some w => (st, seqQuery cfg name w args)
   -- stateful objects
+  -- shufall j i: a shuffle of object i with every position frozen = a NEW object holding the same sequence (no phosphosites, default palette)
+  | ["shufall", j, i] =>
+    match st.get i.toNat! with
+    | none => (st, "bad-op noobj")
+    | some o => (st.set j.toNat! (Obj.fresh cfg.pal o.seq), "ok")
   | ["new", i, seqTok] =>
     match Seq.ofChars? seqTok.toList with
     | none => (st, "bad-op seq")
